@@ -54,6 +54,7 @@ type tw struct {
 
 func newTW(c *ev.Ctx, prop string, ver uint32, seed uint64, wga int) *tw {
 	w := &tw{c: c, prop: prop, rf: recfs.New(seed), ver: ver, r: ev.NewRand(seed), fid: map[p9.File]uint64{}, hnd: map[p9.File]int{}, par: map[p9.File]p9.File{}, name: map[p9.File]string{}}
+	w.rf.EOFWithEntries = true
 	w.rf.WGA = wga
 	w.g = &wire.Gen{R: w.r, Budget: 400, Small: true, SafeNames: true}
 	srv := p9.NewServer(w.rf)
